@@ -308,6 +308,7 @@ PROPS = {
             'MF.Props.C08.type_sound_top',
             'MF.Props.C08.type_complete',
             'MF.Props.C08.type_complete_tree',
+            'MF.Props.C08.type_accepts_iff',
             'MF.Props.C08.type_unique',
             'MF.Props.C08.fuel_irrelevant',
             'MF.Props.C08.ex_parse',
@@ -323,8 +324,8 @@ PROPS = {
             'MF/Spec/TypeShift.lean, MF/Spec/TypeReads.lean; lexer model MF/Model/Lexer.lean (LEX channel)',
             'no Lean model of the other productions of parser.go: the predicate runs the real entry points'],
         "assumptions": ['proved for the ParseType entry point (model, every token list): the model accepts exactly the sentences of the documented type grammar G_T and returns the derivation tree '
-            '(type_sound, type_complete with a concrete fuel, type_unique); side condition HeadsOK (memefish rejects a named type whose first path component reads as a simple type name, e.g. '
-            'string.x); every other entry point is explored only',
+            '(type_sound, type_complete with a concrete fuel and NO side condition, type_accepts_iff, type_unique); the former side condition HeadsOK is gone with the repair of '
+            'lookaheadSimpleType (date.T, string.x are named types); every other entry point is explored only',
             'every other entry point and node kind: exploration of the real entry points over corpus, probes, the reference grammar G, grafts, edits, mutations and soups (partial)'],
     },
     "C09": {
